@@ -22,7 +22,7 @@ import sys
 import threading
 import time
 
-from sched_common import PROBE_UID, Mapper, Obs, Scenario, classify_engine
+from sched_common import PROBE_UID, Mapper, Obs, Scenario, U, classify_engine, un
 
 _CLASS_CACHE = {}
 _FILES = {}
@@ -66,6 +66,7 @@ def make_class(K):
         h = getattr(self, "h", None)
         if h is None or uid is None:
             return None
+        uid = un(uid)
         return h.callback(self, name, uid)
 
     ns["_cb"] = _cb
@@ -169,7 +170,7 @@ class ThreadHarness:
             for kid in self.scn.nest.get(uid, []):
                 self.mapper.set_sending(tid, kid)
                 try:
-                    r, exc = sm.send("go", uid=kid), None
+                    r, exc = sm.send("go", uid=U(kid)), None
                 except Exception as e:  # noqa: BLE001
                     r, exc = None, repr(e)
                 self.obs.nested.append((tid, uid, kid, decode_ret(r), exc))
@@ -210,7 +211,7 @@ class ThreadHarness:
                 for uid in self.scn.progs[tid]:
                     self.mapper.set_sending(tid, uid)
                     try:
-                        r, exc = sm.send("go", uid=uid), None
+                        r, exc = sm.send("go", uid=U(uid)), None
                     except Abort:
                         raise
                     except Exception as e:  # noqa: BLE001
@@ -268,7 +269,7 @@ def run_schedule(scn: Scenario, devs: dict, want_where=False, timeout=20.0) -> O
     # follow-up send through the public API: a stale result reveals an event left behind
     h.probing = True
     try:
-        r = decode_ret(sm.send("go", uid=PROBE_UID))
+        r = decode_ret(sm.send("go", uid=U(PROBE_UID)))
         obs.probe = (r, sm.current_state.id)
     except Exception as e:  # noqa: BLE001
         obs.probe = (f"<{e!r}>", None)
